@@ -601,8 +601,10 @@ def kcoreness_centrality_bd(CIJ):
     coreness = np.zeros((N,))
     kn = np.zeros((N,))
 
-    for k in range(N):
-        CIJkcore, kn[k] = kcore_bd(CIJ, k)
+    for k in range(max(2 * N - 1, 1)):  # in- plus out-degree reaches 2(N-1)
+        CIJkcore, knk = kcore_bd(CIJ, k)
+        if k < N:
+            kn[k] = knk
         ss = (np.sum(CIJkcore, axis=0) + np.sum(CIJkcore, axis=1)) > 0
         coreness[ss] = k
 
